@@ -4,7 +4,9 @@ import SpecterModel.C06.Props
 # C02 / C03 — a completed graceful `Join` maps a stable quiescent ring to a stable quiescent ring
 
 `Stable ∧ Quiescent` (C01 / C03) is not only a fixpoint of the repair tasks (`C02/Props.lean`): it is an
-INDUCTIVE invariant of sequential graceful joins. Main theorem: `join_preserves_stable`.
+INDUCTIVE invariant of sequential graceful joins. Main theorem: `join_preserves_stable`; corollary over
+join sequences: `joins_preserve_stable`; progress (the join does succeed when lookups complete):
+`join_succeeds`. Not covered here: graceful leaves, interleaved (concurrent) membership changes, crashes.
 
 The proof follows the code of `Join` step by step (`joinBegin`, `joinTasks`, `joinAdvise`, `joinRelease`):
 
@@ -16,6 +18,9 @@ The proof follows the code of `Join` step by step (`joinBegin`, `joinTasks`, `jo
 3. `stabilize_confirm` (at `j`), `fixFinger_spec` (fingers only become members), `checkPredecessor_noop`,
    `stabilize_adopt` (at `prev`: adopts `j` as first successor), state changes: `shape_*`.
 4. `shape_final`: ring arithmetic — inserting `j` between `prev` and `s` keeps every pointer exact.
+
+Nets may contain duplicate keys and departed / crashed / never-started nodes; every statement is about
+`Net.get`, so none of that matters. Successor-list TAILS are unconstrained (as in `Stable`).
 -/
 namespace Specter.C02
 open Specter.Ring Specter.C01 Specter.C03 Specter.C09 Specter.C08
@@ -721,14 +726,36 @@ end shape
 
 /-! ### ring arithmetic: inserting `j` strictly between `prev` and its successor `s` -/
 
+/-- distances between two points, re-based at a third one -/
+theorem dist_rebase (b x y : Nat) (hb : b < M) (hx : x < M) (hy : y < M) :
+    (dist b x ≤ dist b y ∧ dist x y = dist b y - dist b x) ∨
+    (dist b y < dist b x ∧ dist x y = dist b y + M - dist b x) := by
+  have := dist_cases b x hb hx; have := dist_cases b y hb hy; have := dist_cases x y hx hy
+  have := M_val
+  omega
+
+theorem dist_eq_iff (b x y : Nat) (hb : b < M) (hx : x < M) (hy : y < M) :
+    dist b x = dist b y ↔ x = y := by
+  have := dist_cases b x hb hx; have := dist_cases b y hb hy
+  have := M_val
+  constructor
+  · omega
+  · intro e; rw [e]
+
+theorem dist_zero_iff (b x : Nat) (hb : b < M) (hx : x < M) : dist b x = 0 ↔ b = x := by
+  have := dist_cases b x hb hx
+  have := M_val
+  constructor
+  · omega
+  · intro e; subst e; omega
+
 /-- no old member lies strictly between `prev` and `j` -/
-theorem geo_prev_j (P : Nat → Prop) (prev j s : Nat) (hp : prev < M) (hj : j < M) (hs : s < M)
+theorem geo_prev_j (P : Nat → Prop) (prev j s : Nat) (hp : prev < M) (hs : s < M)
     (hmin : ∀ m, P m → ¬ (0 < dist prev m ∧ dist prev m < dist prev s) ∧ (prev = s → m = s))
     (hb : 0 < dist prev j ∧ (dist prev j < dist prev s ∨ prev = s))
     (m : Nat) (hm : P m) (hmM : m < M) : ¬ (0 < dist prev m ∧ dist prev m < dist prev j) := by
   have := hmin m hm
-  have := dist_cases prev m hp hmM; have := dist_cases prev j hp hj; have := dist_cases prev s hp hs
-  have := M_val
+  have := dist_zero_iff prev s hp hs; have := dist_eq_iff prev m s hp hmM hs
   omega
 
 /-- no old member lies strictly between `j` and `s` -/
@@ -737,9 +764,9 @@ theorem geo_j_s (P : Nat → Prop) (prev j s : Nat) (hp : prev < M) (hj : j < M)
     (hb : 0 < dist prev j ∧ (dist prev j < dist prev s ∨ prev = s))
     (m : Nat) (hm : P m) (hmM : m < M) : ¬ (0 < dist j m ∧ dist j m < dist j s) := by
   have := hmin m hm
-  have := dist_cases prev m hp hmM; have := dist_cases prev j hp hj; have := dist_cases prev s hp hs
-  have := dist_cases j m hj hmM; have := dist_cases j s hj hs
-  have := M_val
+  have := dist_zero_iff prev s hp hs; have := dist_eq_iff prev m s hp hmM hs
+  have := dist_rebase prev j m hp hj hmM; have := dist_rebase prev j s hp hj hs
+  have := dist_lt prev m; have := dist_lt prev s; have := dist_lt prev j
   omega
 
 /-- `j` is not strictly between another member `n ≠ s` and its predecessor `p` -/
@@ -747,9 +774,9 @@ theorem geo_pred_other (j s n p : Nat) (hj : j < M) (hs : s < M) (hn : n < M) (h
     (hown : dist j s ≤ dist j n) (hns : n ≠ s)
     (hmin : ¬ (0 < dist p s ∧ dist p s < dist p n) ∧ (p = n → s = n)) :
     ¬ (0 < dist p j ∧ dist p j < dist p n) ∧ (p = n → j = n) := by
-  have := dist_cases p j hp hj; have := dist_cases p n hp hn; have := dist_cases p s hp hs
-  have := dist_cases j n hj hn; have := dist_cases j s hj hs
-  have := M_val
+  have := dist_zero_iff p n hp hn; have := dist_eq_iff p s n hp hs hn; have := dist_eq_iff p j n hp hj hn
+  have := dist_rebase p j n hp hj hn; have := dist_rebase p j s hp hj hs
+  have := dist_lt p n; have := dist_lt p s; have := dist_lt p j
   omega
 
 /-- if `j` is strictly between a member `n` and its successor `sn`, that successor is `s` -/
@@ -757,9 +784,9 @@ theorem geo_succ_other (j s n sn : Nat) (hj : j < M) (hs : s < M) (hn : n < M) (
     (hown : dist j s ≤ dist j sn)
     (hmin : ¬ (0 < dist n s ∧ dist n s < dist n sn) ∧ (sn = n → s = n))
     (hin : 0 < dist n j ∧ dist n j < dist n sn) : sn = s := by
-  have := dist_cases n j hn hj; have := dist_cases n sn hn hsn; have := dist_cases n s hn hs
-  have := dist_cases j sn hj hsn; have := dist_cases j s hj hs
-  have := M_val
+  have := dist_zero_iff n sn hn hsn; have := dist_eq_iff n sn s hn hsn hs; have := dist_zero_iff n s hn hs
+  have := dist_rebase n j sn hn hj hsn; have := dist_rebase n j s hn hj hs
+  have := dist_lt n sn; have := dist_lt n s; have := dist_lt n j
   omega
 
 /-! ### the net at the end of the join is stable and quiescent -/
@@ -839,7 +866,7 @@ theorem shape_final {net net' : Net} {j s prev : Nat} (c : Ctx net j s prev)
   rw [c.hsp ys hys] at hp0; injection hp0 with hp0; subst hp0
   have hb := (between_open_iff prev j s hpM hjM hsM).mp c.hb
   have g1 : ∀ m, Mem net m → ¬ (0 < dist prev m ∧ dist prev m < dist prev j) :=
-    fun m hm => geo_prev_j (Mem net) prev j s hpM hjM hsM hmin hb m hm (c.hs.lt m hm)
+    fun m hm => geo_prev_j (Mem net) prev j s hpM hsM hmin hb m hm (c.hs.lt m hm)
   have g2 : ∀ m, Mem net m → ¬ (0 < dist j m ∧ dist j m < dist j s) :=
     fun m hm => geo_j_s (Mem net) prev j s hpM hjM hsM hmin hb m hm (c.hs.lt m hm)
   have own := (handOff_node_is_owner c).2
@@ -1020,15 +1047,13 @@ theorem stable_closed (net : Net) (hs : Stable net) : ClosedP net (Mem net) := b
   rw [hsu] at ht; injection ht with ht; subst ht; exact hsm
 
 /-- the owner's predecessor range contains a non-member identifier strictly -/
-theorem geo_owner_between (P : Nat → Prop) (prev j o : Nat) (hp : prev < M) (hj : j < M) (ho : o < M)
-    (hPp : P prev) (hjp : j ≠ prev) (hjo : j ≠ o)
-    (hmin : ∀ m, P m → ¬ (0 < dist prev m ∧ dist prev m < dist prev o) ∧ (prev = o → m = o))
-    (hown : ∀ m, P m → dist j o ≤ dist j m) :
+theorem geo_owner_between (prev j o : Nat) (hp : prev < M) (hj : j < M) (ho : o < M)
+    (hjo : j ≠ o) (hown : dist j o ≤ dist j prev) :
     0 < dist prev j ∧ (dist prev j < dist prev o ∨ prev = o) := by
-  have := hown prev hPp
-  have := dist_cases prev j hp hj; have := dist_cases prev o hp ho
-  have := dist_cases j o hj ho; have := dist_cases j prev hj hp
-  have := M_val
+  have := dist_zero_iff prev o hp ho; have := dist_eq_iff prev j o hp hj ho
+  have := dist_zero_iff prev prev hp hp
+  have := dist_rebase prev j o hp hj ho; have := dist_rebase prev j prev hp hj hp
+  have := dist_lt prev o; have := dist_lt prev j
   omega
 
 /-- **Progress.** On a stable quiescent ring whose lookups for `j` complete within the model's fuel, the
@@ -1064,11 +1089,10 @@ theorem join_succeeds (net : Net) (hs : Stable net) (hq : Quiescent net) (j peer
   have hg1o := (hag o2 hown.1).trans hgo
   have hg1p := (hag peer ⟨ndp, hgp, hcp⟩).trans hgp
   -- the hand-off at the owner succeeds
-  obtain ⟨prev, hpr, hpm, hmin⟩ := hs.pred o2 ndo hgo hco
+  obtain ⟨prev, hpr, hpm, _⟩ := hs.pred o2 ndo hgo hco
   have hbt : between prev j o2 false = true := by
     rw [between_open_iff prev j o2 (hs.lt _ hpm) hj (hs.lt _ hown.1)]
-    exact geo_owner_between (Mem net) prev j o2 (hs.lt _ hpm) hj (hs.lt _ hown.1) hpm
-      (fun e => hnj (e ▸ hpm)) (Ne.symm hoj) hmin hown.2
+    exact geo_owner_between prev j o2 (hs.lt _ hpm) hj (hs.lt _ hown.1) (Ne.symm hoj) (hown.2 prev hpm)
   have hho : ∃ n2 v, handOff (net.upd j fun nd => { nd with state := .joining }) o2 j = (n2, .ok v) := by
     rcases handOff_cases (net.upd j fun nd => { nd with state := .joining }) o2 j with
       ⟨hn, _⟩ | ⟨nd, hg, hna, _⟩ | ⟨nd, hg, _, hpn, _⟩ | ⟨nd, pv, hg, _, hpn, hbf, _⟩ |
@@ -1100,9 +1124,80 @@ theorem join_succeeds (net : Net) (hs : Stable net) (hq : Quiescent net) (j peer
     · subst e; simp [hoj, hho]
     · simp [hoj, e, atOwner 254]
   obtain ⟨pv, sl⟩ := v
-  refine ⟨_, ?_⟩
-  unfold join joinBegin
-  simp only [hgj, hin, hreq]
-  rfl
+  have hnone : (join net j peer).2 = none := by
+    unfold join joinBegin
+    simp [hgj, hin, hreq]
+  exact ⟨(join net j peer).1, Prod.ext rfl hnone⟩
+
+/-! ### non-vacuity -/
+
+theorem eq_of_snd_none {α β : Type} (p : α × Option β) (h : p.2 = none) : p = (p.1, none) := by
+  rw [← h]
+
+/-- a node exactly as `new` leaves it is a fresh joiner -/
+theorem fresh_of_new (net : Net) (j : Nat) (h : net.get j = some ({} : Node)) : FreshJoiner net j :=
+  ⟨⟨_, h, rfl, rfl, rfl, fun f hf => by simp at hf⟩⟩
+
+/-- the three-node ring of C01 (ids 0, 5, 2^48-1 with wrap-around, one departed node still present)
+plus a node `3` as `new` leaves it -/
+def joinRing : Net := Specter.C01.ring3 ++ [(3, ({} : Node))]
+
+/-- the one-node ring of C01 plus a new node `9` (the case `prev = s`) -/
+def joinRing1 : Net := Specter.C01.ring1 ++ [(9, ({} : Node))]
+
+/-- every hypothesis of `join_preserves_stable` and of `join_succeeds` holds for `joinRing`, joiner 3,
+through peer 0 (the owner of 3 is node 5, reached by routing) … -/
+example : Stable joinRing ∧ Quiescent joinRing ∧ 3 < M ∧ FreshJoiner joinRing 3 ∧ Mem joinRing 0 ∧
+    LookupsComplete joinRing 3 ∧ (join joinRing 3 0).2 = none :=
+  ⟨stable_of_stableB _ (by decide), quiescent_of_quiescentB _ (by decide), by decide, fresh_of_new _ _ rfl,
+   (memB_iff _ _).mp (by decide), lookupsComplete_of_B _ _ (by decide), by decide⟩
+
+-- … the join inserts 3 between 0 and 5 …
+set_option maxRecDepth 8192 in
+example : ((join joinRing 3 0).1.get 3).map (fun x => (x.state, x.pred, x.succs.head?)) =
+    some (.active, some 0, some 5) := by decide
+set_option maxRecDepth 8192 in
+example : ((join joinRing 3 0).1.get 5).map (fun x => (x.state, x.pred, x.surrogate)) =
+    some (.active, some 3, some 3) := by decide
+set_option maxRecDepth 8192 in
+example : ((join joinRing 3 0).1.get 0).map (fun x => x.succs.head?) = some (some 3) := by decide
+
+/-- … and the theorem applies to it (also to the one-node ring, where `prev = s`). -/
+example : Stable (join joinRing 3 0).1 ∧ Quiescent (join joinRing 3 0).1 ∧ Mem (join joinRing 3 0).1 3 :=
+  have h := join_preserves_stable joinRing (stable_of_stableB _ (by decide)) (quiescent_of_quiescentB _ (by decide))
+    3 0 (by decide) (fresh_of_new _ _ rfl) (join joinRing 3 0).1 (eq_of_snd_none _ (by decide))
+  ⟨h.1, h.2.1, h.2.2.1⟩
+
+example : Stable (join joinRing1 9 7).1 ∧ Quiescent (join joinRing1 9 7).1 ∧ Mem (join joinRing1 9 7).1 9 :=
+  have h := join_preserves_stable joinRing1 (stable_of_stableB _ (by decide)) (quiescent_of_quiescentB _ (by decide))
+    9 7 (by decide) (fresh_of_new _ _ rfl) (join joinRing1 9 7).1 (eq_of_snd_none _ (by decide))
+  ⟨h.1, h.2.1, h.2.2.1⟩
+
+/-- executable form of `FreshJoiner` -/
+def freshB (net : Net) (j : Nat) : Bool :=
+  match net.get j with
+  | some nd => nd.state == .inactive && !nd.crashed && nd.surrogate.isNone &&
+      nd.fingers.all (fun f => match f with | some f => memB net f | none => true)
+  | none => false
+
+theorem fresh_of_freshB (net : Net) (j : Nat) (h : freshB net j = true) : FreshJoiner net j := by
+  unfold freshB at h
+  cases hg : net.get j with
+  | none => simp [hg] at h
+  | some nd =>
+    simp only [hg, Bool.and_eq_true, beq_iff_eq, Bool.not_eq_true', Option.isNone_iff_eq_none,
+      List.all_eq_true] at h
+    obtain ⟨⟨⟨h1, h2⟩, h3⟩, h4⟩ := h
+    exact ⟨⟨nd, hg, h1, h2, h3, fun f hf => (memB_iff net f).mp (by simpa using h4 (some f) hf)⟩⟩
+
+/-- two joins in sequence (`Joins`): 3 joins through 0, then 4 joins through the new member 3 -/
+def joinRing2 : Net := Specter.C01.ring3 ++ [(3, ({} : Node)), (4, ({} : Node))]
+
+set_option maxRecDepth 8192 in
+example : Joins joinRing2 (join (join joinRing2 3 0).1 4 3).1 :=
+  Joins.step _ _ _ 4 3
+    (Joins.step _ _ _ 3 0 (Joins.refl _) (by decide) (fresh_of_freshB _ _ (by decide))
+      (eq_of_snd_none _ (by decide)))
+    (by decide) (fresh_of_freshB _ _ (by decide)) (eq_of_snd_none _ (by decide))
 
 end Specter.C02
